@@ -31,6 +31,8 @@ Bus watcher:
     classify <origin> <rtype> <f0> <f1> <f2> <f3>    -> ok F.<bits>.<data> | ok B.<b> | ok E | ok N | ok O | err ValueError
     serial <F…>* / specserial <F…>*   -> <bits>.<data>.<dt>*
     reg (S.<i> | U.<i> | M.<x>)* / specreg …   -> <i>=<x,…>*   for every i that was ever subscribed
+    kreg <i>=<key>,…|- (S.<i> | U.<i> | M.<x>)*   -> <key>:<i>,…   the keyed handler table (KReg), dict order
+    hatroute (A.<t> | W.<t>.<n> | G.<t> | R.<t>)*  -> per event: - | from=<owner of the line read> | refused
 -/
 namespace DaliVerif.WatchDrv
 open DaliVerif Proto Answer Routing BusWatch
@@ -359,6 +361,43 @@ def regRun (spec : Bool) (toks : List String) : String :=
     let view (i : Nat) : List Nat := if spec then expectedFor i false evs else r.received i
     "ok " ++ " ".intercalate (ids.map (fun i => s!"{i}=" ++ ",".intercalate ((view i).map toString)))
 
+/-- `kreg <i>=<key>,… <ev>*`: the keyed handler table after the events, `<key>:<i>` in dict order -/
+def kregRun (keytab : String) (toks : List String) : String :=
+  let pairs? : Option (List (Nat × Nat)) :=
+    if keytab == "-" then some []
+    else (keytab.splitOn ",").mapM (fun e =>
+      match e.splitOn "=" with
+      | [i, k] => do let i ← nat? i; let k ← nat? k; pure (i, k)
+      | _ => none)
+  match pairs?, toks.mapM regEv? with
+  | some ps, some evs =>
+    let named := evs.all (fun e => match e with
+      | .sub i | .unsub i => ps.any (·.1 == i)
+      | .emit _ => true)
+    if !named then "bad-op missing-key"
+    else
+      let key := fun i => ((ps.find? (·.1 == i)).map (·.2)).getD 0
+      let r := (KReg.init (α := Nat)).run key evs
+      "ok " ++ ",".intercalate (r.table.map (fun p => s!"{p.1}:{p.2}"))
+  | _, _ => "bad-op"
+
+/-- `hatroute (A.<t> | W.<t>.<n> | G.<t> | R.<t>)*`: per event `-`, `from=<owner>` for a read, `refused` -/
+def hatRoute (toks : List String) : Option (List String) := do
+  let mut h := Hat.init
+  let mut outs : List String := []
+  for tok in toks do
+    let ev ← match tok.splitOn "." with
+      | ["A", t] => (nat? t).map HatEv.acquire
+      | ["W", t, n] => do let t ← nat? t; let n ← nat? n; pure (HatEv.write t n)
+      | ["G", t] => (nat? t).map HatEv.read
+      | ["R", t] => (nat? t).map HatEv.release
+      | _ => none
+    match h.step ev with
+    | some (h', some (_, l)) => h := h'; outs := outs ++ [s!"from={l}"]
+    | some (h', none) => h := h'; outs := outs ++ ["-"]
+    | none => outs := outs ++ ["refused"]
+  pure outs
+
 def fmtPkt : Pkt → String
   | .fwd f => s!"F.{f.bits}.{f.data}" | .back b => s!"B.{b}" | .backErr => "E"
   | .noFrame => "N" | .other => "O"
@@ -426,6 +465,11 @@ def handle : List String → String
     | _, _, _, _, _, _ => "bad-op"
   | "serial" :: toks => serialRunDrv false toks
   | "specserial" :: toks => serialRunDrv true toks
+  | "kreg" :: keytab :: toks => kregRun keytab toks
+  | "hatroute" :: toks =>
+    match hatRoute toks with
+    | some o => "ok " ++ " ".intercalate o
+    | none => "bad-op"
   | "reg" :: toks => regRun false toks
   | "specreg" :: toks => regRun true toks
   | _ => "bad-op"
